@@ -140,8 +140,39 @@ func prodFieldCoincidences(rc *RunCtx) {
 			}
 		}
 	}
-	// deposits: the caller / mint recipient coincide with the module's word, the depositor's word, the messenger
+	// accounts that a message names in another field (as destination caller, as recipient, as mint recipient) do not own it:
+	// their replacements are refused, the owner's goes through
 	from, _ := p.funded()
+	{
+		other, third := Acct(OtherIx), Acct(PoorIx)
+		ow, tw := ref.Pad32(addrBytes(other)), ref.Pad32(addrBytes(third))
+		from := Acct(RichIx) // funded, and none of the accounts named in the messages
+		if rc.Shard == 2%rc.NShards {
+			r := e.Exec(Tx{Msgs: msgs1(&ct.MsgDepositForBurnWithCaller{From: from, Amount: mkInt(big.NewInt(4)), DestinationDomain: 0, MintRecipient: tw, BurnToken: e.MintDenom(), DestinationCaller: ow}), Note: "named elsewhere: deposit naming two other accounts"})
+			if r.OK && len(r.Sent) == 1 {
+				for i, who := range []string{other, third, user, from} {
+					r2 := e.Exec(Tx{Msgs: msgs1(&ct.MsgReplaceDepositForBurn{From: who, OriginalMessage: r.Sent[0], OriginalAttestation: e.Attest(r.Sent[0], i%3), NewDestinationCaller: Structured32(7), NewMintRecipient: Structured32(8)}),
+						Note: "named elsewhere: replace-deposit by " + []string{"the destination caller", "the mint recipient", "a stranger", "the depositor"}[i]})
+					rc.Cov.Cell("prod_named_elsewhere", fmt.Sprintf("deposit/%d/%s", i, okWord(r2.OK)))
+					r3 := e.Exec(Tx{Msgs: msgs1(&ct.MsgReplaceMessage{From: who, OriginalMessage: r.Sent[0], OriginalAttestation: e.Attest(r.Sent[0], i%3), NewMessageBody: []byte("x"), NewDestinationCaller: Structured32(7)}),
+						Note: "named elsewhere: replace-message of a deposit by " + []string{"the destination caller", "the mint recipient", "a stranger", "the depositor"}[i]})
+					rc.Cov.Cell("prod_named_elsewhere", fmt.Sprintf("deposit-via-replace-message/%d/%s", i, okWord(r3.OK)))
+				}
+			}
+			r = e.Exec(Tx{Msgs: msgs1(&ct.MsgSendMessageWithCaller{From: user, DestinationDomain: 2, Recipient: tw, MessageBody: BurnBody(0, ref.Keccak256([]byte("uusdc")), ow, big.NewInt(9), ow), DestinationCaller: ow}), Note: "named elsewhere: message naming two other accounts"})
+			if r.OK && len(r.Sent) == 1 {
+				for i, who := range []string{other, third, from, user} {
+					r2 := e.Exec(Tx{Msgs: msgs1(&ct.MsgReplaceMessage{From: who, OriginalMessage: r.Sent[0], OriginalAttestation: e.Attest(r.Sent[0], i%3), NewMessageBody: []byte("y"), NewDestinationCaller: Structured32(7)}),
+						Note: "named elsewhere: replace-message by " + []string{"the destination caller (also named in the body)", "the recipient", "a stranger", "the sender"}[i]})
+					rc.Cov.Cell("prod_named_elsewhere", fmt.Sprintf("message/%d/%s", i, okWord(r2.OK)))
+					r3 := e.Exec(Tx{Msgs: msgs1(&ct.MsgReplaceDepositForBurn{From: who, OriginalMessage: r.Sent[0], OriginalAttestation: e.Attest(r.Sent[0], i%3), NewDestinationCaller: Structured32(7), NewMintRecipient: Structured32(8)}),
+						Note: "named elsewhere: replace-deposit of a user message by " + []string{"the account its body names as depositor", "the recipient", "a stranger", "the sender"}[i]})
+					rc.Cov.Cell("prod_named_elsewhere", fmt.Sprintf("message-via-replace-deposit/%d/%s", i, okWord(r3.OK)))
+				}
+			}
+		}
+	}
+	// deposits: the caller / mint recipient coincide with the module's word, the depositor's word, the messenger
 	dw := ref.Pad32(addrBytes(from))
 	for _, oc := range []string{"module", "depositor", "messenger", "mint-recipient"} {
 		for _, nc := range []string{"module", "depositor", "messenger", "zero", "new-mint-recipient"} {
